@@ -105,6 +105,14 @@ def handleChannels (j : Json) : Except String Json := do
     return Json.mkObj [("argv", toJson argv), ("values", toJson (sc.map (·.value))),
       ("env", Json.mkObj (names.map (fun n => (n, toJson (e n)))))]
 
+/-- {"op":"define","items":[{name,kind}],"vars":[..],"allowRecipes":B,"allowVars":B} -/
+def handleDefine (j : Json) : Except String Json := do
+  let items : List Define.Def ← fromJson? (← j.getObjVal? "items")
+  let vars : List String ← fromJson? (← j.getObjVal? "vars")
+  let ar ← j.getObjValAs? Bool "allowRecipes"
+  let av ← j.getObjValAs? Bool "allowVars"
+  return Json.mkObj [("accepts", toJson (Define.accepts ar av items vars))]
+
 def handleWorkdir (j : Json) : Except String Json := do
   let c : Workdir.Ctx ← fromJson? (← j.getObjVal? "ctx")
   let a : Workdir.Attrs ← fromJson? (← j.getObjVal? "attrs")
@@ -494,6 +502,7 @@ def handle (line : String) : Json :=
       | "signals" => handleSignals j
       | "quote" => handleQuote j
       | "channels" => handleChannels j
+      | "define" => handleDefine j
       | "args" => handleArgs j
       | "childenv" => handleChildEnv j
       | "workdir" => handleWorkdir j
